@@ -35,7 +35,13 @@ type Solver struct {
 	Time    time.Duration
 	log     io.Writer
 	kind    string
-	timeout int // ms per query
+	timeout int // ms per query (incremental attempt)
+	// transcript of state-changing commands per push level, for one-shot fallback solving
+	levels       [][]string
+	lastFallback bool
+	Fallbacks    int
+	fbTimeout    int // seconds for the one-shot fallback
+	tmpDir       string
 }
 
 func solverArgs(kind string) (string, []string) {
@@ -64,7 +70,8 @@ func NewSolver(kind string, timeoutMs int, logw io.Writer) (*Solver, error) {
 	if err := cmd.Start(); err != nil {
 		return nil, err
 	}
-	s := &Solver{cmd: cmd, in: in, out: bufio.NewReaderSize(out, 1<<16), p: NewPrinter(), log: logw, kind: kind, timeout: timeoutMs}
+	s := &Solver{cmd: cmd, in: in, out: bufio.NewReaderSize(out, 1<<16), p: NewPrinter(), log: logw, kind: kind, timeout: timeoutMs, fbTimeout: 60}
+	s.levels = [][]string{nil}
 	s.send("(set-option :produce-models true)\n")
 	if kind == "cvc5" {
 		s.send("(set-logic ALL)\n")
@@ -96,12 +103,15 @@ func (s *Solver) Push() {
 	s.p.Push()
 	s.send("(push 1)\n")
 	s.depth++
+	s.levels = append(s.levels, nil)
 }
 
 func (s *Solver) Pop() {
 	s.p.Pop()
 	s.send("(pop 1)\n")
 	s.depth--
+	s.levels = s.levels[:len(s.levels)-1]
+	s.lastFallback = false
 }
 
 // PopTo pops back to the given depth.
@@ -122,9 +132,53 @@ func (s *Solver) Assert(t *Term) {
 
 func (s *Solver) flush() {
 	if s.p.out.Len() > 0 {
-		s.send(s.p.out.String())
+		txt := s.p.out.String()
+		s.levels[len(s.levels)-1] = append(s.levels[len(s.levels)-1], txt)
+		s.send(txt)
 		s.p.out.Reset()
 	}
+}
+
+// oneShot solves the current assertion stack in a fresh solver process (z3's one-shot
+// strategy is far stronger on wide bit-vector arithmetic than its incremental core).
+func (s *Solver) oneShot(extra string) (Result, string) {
+	var sb strings.Builder
+	sb.WriteString("(set-option :produce-models true)\n")
+	for _, l := range s.levels {
+		for _, t := range l {
+			sb.WriteString(t)
+		}
+	}
+	sb.WriteString("(check-sat)\n")
+	sb.WriteString(extra)
+	f, err := os.CreateTemp("", "gosym-*.smt2")
+	if err != nil {
+		return Unknown, ""
+	}
+	defer os.Remove(f.Name())
+	f.WriteString(sb.String())
+	f.Close()
+	bin := "z3"
+	if s.kind == "z3-new" {
+		bin = "z3-new"
+	}
+	out, _ := exec.Command(bin, fmt.Sprintf("-T:%d", s.fbTimeout), f.Name()).Output()
+	text := string(out)
+	if strings.Contains(text, "(error") {
+		return Unknown, text
+	}
+	first := strings.TrimSpace(strings.SplitN(text, "\n", 2)[0])
+	rest := ""
+	if i := strings.IndexByte(text, '\n'); i >= 0 {
+		rest = text[i+1:]
+	}
+	switch first {
+	case "sat":
+		return Sat, rest
+	case "unsat":
+		return Unsat, rest
+	}
+	return Unknown, rest
 }
 
 func (s *Solver) readLine() string {
@@ -139,6 +193,7 @@ func (s *Solver) readLine() string {
 func (s *Solver) Check() Result {
 	s.flush()
 	t0 := time.Now()
+	s.lastFallback = false
 	s.send("(check-sat)\n")
 	var r Result
 	for {
@@ -154,8 +209,17 @@ func (s *Solver) Check() Result {
 			r = Unsat
 			s.NUnsat++
 		case line == "unknown" || strings.HasPrefix(line, "timeout"):
-			r = Unknown
-			s.NUnk++
+			s.Fallbacks++
+			r, _ = s.oneShot("")
+			s.lastFallback = true
+			switch r {
+			case Sat:
+				s.NSat++
+			case Unsat:
+				s.NUnsat++
+			default:
+				s.NUnk++
+			}
 		case strings.HasPrefix(line, "(error"):
 			panic(engineAbort{"solver error: " + line})
 		default:
@@ -228,8 +292,17 @@ func (s *Solver) GetValues(ts []*Term) []*big.Int {
 			refs = append(refs, s.p.Ref(t))
 		}
 		s.flush()
-		s.send("(get-value (" + strings.Join(refs, " ") + "))\n")
-		out := s.readSexp()
+		var out string
+		if s.lastFallback {
+			r, o := s.oneShot("(get-value (" + strings.Join(refs, " ") + "))\n")
+			if r != Sat {
+				panic(engineAbort{"fallback solver could not reproduce a model"})
+			}
+			out = o
+		} else {
+			s.send("(get-value (" + strings.Join(refs, " ") + "))\n")
+			out = s.readSexp()
+		}
 		if strings.Contains(out, "(error") {
 			panic(engineAbort{"solver get-value error: " + out})
 		}
